@@ -87,7 +87,7 @@ def gen_case(rng, depth=3, hist=False, ids=None, max_ops=40, **genkw):
         if not any(imm_other):
             imm_other[0] = True
     case = {
-        "witness": bool(hist) and rng.random() < 0.5,
+        "witness": (rng.choice([True, "live"]) if rng.random() < 0.5 else False) if hist else False,
         "imm_other": imm_other,
         "prog": prog,
         "text": text,
@@ -141,8 +141,27 @@ def gen_prelude(rng, hist, imm_any=False, shared=False):
     return ops
 
 
+def apply_witness_op(run, op):
+    """an action on the other scheduler of this process; recorded as a call of the scheduler under test that must
+    leave it untouched (empty trace, same state)"""
+    w = getattr(run, "witness", None)
+
+    def act():
+        if w is None or w.s is None:
+            return None
+        if op["op"] == "wstart":
+            w.start()
+        elif w.pending:
+            w.complete(w.pending[op.get("n", 0) % len(w.pending)])
+        return None
+
+    return run._call(op, act)
+
+
 def apply_op(run, op):
     o = op["op"]
+    if o in ("wstart", "wfinish"):
+        return apply_witness_op(run, op)
     if o == "reg":
         return run.register(op["kind"], op["fn"])
     if o == "attach":
@@ -188,16 +207,19 @@ def run_impl(case, scratch=None):
         witness = impl.Run(case["text"], ids=case["ids"])
         if witness.s is not None:
             for k in ("ts", "ss", "sf", "tf"):
-                witness.s.__getattribute__({"ts": "register_callback_task_started", "ss": "register_callback_service_started",
-                                            "sf": "register_callback_service_finished", "tf": "register_callback_task_finished"}[k])(impl.SHARED[k])
+                if case.get("witness") != "live":
+                    witness.s.__getattribute__({"ts": "register_callback_task_started", "ss": "register_callback_service_started",
+                                                "sf": "register_callback_service_finished", "tf": "register_callback_task_finished"}[k])(impl.SHARED[k])
                 witness.register(k, 0)
                 witness.register(k, 1)
             witness.attach(0)
     run = impl.Run(case["text"], ids=case["ids"], draw=case.get("draw", False), sched_uuid=case.get("sched_uuid", ""),
                    answers=answers, imm=(lambda k: imm[k % len(imm)]) if imm else None,
                    mutate=case.get("mutate", False), as_file=as_file,
-                   imm_other=(lambda k: case["imm_other"][k % len(case["imm_other"])]) if case.get("imm_other") else None)
+                   imm_other=(lambda k: case["imm_other"][k % len(case["imm_other"])]) if case.get("imm_other") else None,
+                   imm_sf=(lambda k: case["imm_sf"][k % len(case["imm_sf"])]) if case.get("imm_sf") else None)
     impl.SHARED_TARGET[0] = run
+    run.witness = witness
     res = {"valid": run.valid, "ctor_exc": run.ctor_exc, "ctor_out": run.ctor_out[:500]}
     if run.s is None or not run.valid:
         res["calls"] = []
@@ -207,7 +229,7 @@ def run_impl(case, scratch=None):
         return res, run
     if explicit:
         for op in case["ops"]:
-            if "n" in op and op["n"] >= len(run.announced):
+            if op["op"] in ("finish", "junk") and "n" in op and op["n"] >= len(run.announced):
                 # the recorded history refers to a service that is not announced on this tree: the run diverged
                 rec = {"op": op, "out": [], "ret": None, "exc": "ReplayDiverged", "stdout": ""}
                 rec.update(run.snapshot())
@@ -232,7 +254,18 @@ def run_impl(case, scratch=None):
         rec = do({"op": "start"})
         n = 0
         crashed = bool(rec.get("exc"))
+        live = case.get("witness") == "live" and witness is not None and witness.s is not None
+        wstarted = False
         while run.pending and n < case.get("max_ops", 40) and not crashed:
+            if live and rng.random() < 0.3:
+                # the other scheduler of the process is started and driven in between (same test ids!)
+                if not wstarted:
+                    rec = do({"op": "wstart"})
+                    wstarted = True
+                else:
+                    rec = do({"op": "wfinish", "n": rng.randrange(8)})
+                n += 1
+                continue
             if hist and rng.random() < 0.25:
                 rec = do(gen_junk(rng, run))
             elif hist and rng.random() < 0.08:
@@ -268,7 +301,9 @@ def run_impl(case, scratch=None):
     res["calls"] = run.calls
     if witness is not None and witness.s is not None:
         got = [e[:6] for c in witness.calls[9:] for e in c["out"]] + [e[:6] for e in witness.prelude]
-        if got or len(witness.calls) != 9 or witness.s.running or len(witness.s.awaited_events) != 1:
+        if case.get("witness") == "live":
+            got = [e[:6] for e in witness.prelude]  # it runs its own order: only what reaches it outside its own calls counts
+        if got or (case.get("witness") != "live" and (len(witness.calls) != 9 or witness.s.running or len(witness.s.awaited_events) != 1)):
             rec = {"op": {"op": "witness"}, "out": [], "ret": None, "exc": None, "stdout": "",
                    "witness_events": got[:5] or ["state of the other scheduler changed: running=%r awaited=%d" % (witness.s.running, len(witness.s.awaited_events))]}
             rec.update(run.snapshot())
